@@ -40,7 +40,7 @@ func heavyTxn(n *kit.TNode, who, pick int, weight uint64, fee types.Currency) (t
 // weight limit, and pools beyond the ten-block pool limit; the block the
 // repository's miner assembles must be valid and accepted.
 func TestC05Heavy(t *testing.T) {
-	d := kit.NewDirect(t, "C05", "heavy family: for k = 0..40 a pool holding one v2 transaction of weight MaxBlockWeight-k (and, in a second sweep, two transactions summing to MaxBlockWeight-k); plus pools of 11 and 13 near-block-size transactions with distinct fees (beyond the ten-block pool limit). After each: the reported pool validates on the tip, the block MineBlock assembles is valid under core and accepted by AddBlocks.")
+	d := kit.NewDirect(t, "C05", "heavy family: for k = 0..40 a pool holding one v2 transaction of weight MaxBlockWeight-k (and, in a second sweep, two transactions summing to MaxBlockWeight-k); plus pools holding more than one block weight in which the transaction that no longer fits has a small dependant behind it, and pools of 11 and 13 near-block-size transactions with distinct fees (beyond the ten-block pool limit). After each: the reported pool validates on the tip, the block MineBlock assembles is valid under core and accepted by AddBlocks, and so is the next one built from the remainder.")
 	defer d.Done()
 	type hcase struct {
 		Family string `json:"family"`
@@ -50,7 +50,16 @@ func TestC05Heavy(t *testing.T) {
 	for i := 0; i < 3; i++ {
 		tc.Blocks = append(tc.Blocks, kit.BlockSpec{Dt: 1, Miner: i})
 	}
+	var runSets func(hc hcase, build func(tip *kit.TNode) [][]types.V2Transaction)
 	run := func(hc hcase, build func(tip *kit.TNode) []types.V2Transaction) {
+		runSets(hc, func(tip *kit.TNode) (sets [][]types.V2Transaction) {
+			for _, txn := range build(tip) {
+				sets = append(sets, []types.V2Transaction{txn})
+			}
+			return
+		})
+	}
+	runSets = func(hc hcase, build func(tip *kit.TNode) [][]types.V2Transaction) {
 		tr := kit.BuildTree(tc)
 		node, err := kit.NewNode(tr, "mem")
 		if err != nil {
@@ -67,9 +76,9 @@ func TestC05Heavy(t *testing.T) {
 		cs.NonTrivial()
 		cs.Class("heavy:" + hc.Family)
 		var cerr error
-		for _, txn := range build(tip) {
-			if _, err := node.CM.AddV2PoolTransactions(tip.Index(), []types.V2Transaction{txn}); err != nil {
-				cerr = fmt.Errorf("%+v: a valid transaction of weight %d was rejected: %v", hc, tip.Ledger.State.V2TransactionWeight(txn), err)
+		for _, set := range build(tip) {
+			if _, err := node.CM.AddV2PoolTransactions(tip.Index(), set); err != nil {
+				cerr = fmt.Errorf("%+v: a valid set of %d transaction(s) (first of weight %d) was rejected: %v", hc, len(set), tip.Ledger.State.V2TransactionWeight(set[0]), err)
 				break
 			}
 		}
@@ -92,6 +101,18 @@ func TestC05Heavy(t *testing.T) {
 					cerr = fmt.Errorf("%+v: the block MineBlock assembled (%d v2 transactions, weight %d, limit %d) is invalid: %v", hc, len(b.V2Transactions()), w, tip.Ledger.State.MaxBlockWeight(), mn.Err)
 				} else if err := node.CM.AddBlocks([]types.Block{b}); err != nil {
 					cerr = fmt.Errorf("%+v: the block MineBlock assembled was rejected: %v", hc, err)
+				} else if len(node.CM.V2PoolTransactions()) > 0 {
+					// what did not fit is mined next
+					cs.Class("heavy:second-block-from-the-remainder")
+					if _, _, perr := checkPoolValid(node, mn.Ledger, 779); perr != nil {
+						cerr = fmt.Errorf("%+v: after the first mined block: %w", hc, perr)
+					} else if b2, found := coreutils.MineBlock(node.CM, kit.Actors[2].Addr, 10*time.Second); found {
+						if mn2 := tr.AddDynamic(b2); mn2.Ledger == nil {
+							cerr = fmt.Errorf("%+v: the second block MineBlock assembled (%d v2 transactions) is invalid: %v", hc, len(b2.V2Transactions()), mn2.Err)
+						} else if err := node.CM.AddBlocks([]types.Block{b2}); err != nil {
+							cerr = fmt.Errorf("%+v: the second block MineBlock assembled was rejected: %v", hc, err)
+						}
+					}
 				}
 			}
 		}
@@ -181,6 +202,34 @@ func TestC05Heavy(t *testing.T) {
 			d.Case(hc, cs, cerr)
 		}
 		run2()
+	}
+	// more than one block weight in the pool, and the transaction that does not
+	// fit any more has a small dependant behind it
+	for _, sh := range [][2]uint64{{75, 30}, {60, 45}, {90, 15}, {50, 51}} {
+		sh := sh
+		runSets(hcase{"overfull-pool-with-dependant", int(sh[0]*100 + sh[1])}, func(tip *kit.TNode) [][]types.V2Transaction {
+			a, ok1 := heavyTxn(tip, 0, 0, maxW*sh[0]/100, types.Siacoins(3))
+			p, ok2 := heavyTxn(tip, 1, 0, maxW*sh[1]/100, types.Siacoins(2))
+			if !ok1 || !ok2 {
+				t.Fatalf("INFRA: cannot size transactions")
+			}
+			bb := kit.NewBlockBuilder(tip.Ledger)
+			bb.Absorb(nil, []types.V2Transaction{a, p})
+			if !bb.Add(kit.Intent{Kind: "v2pay", Who: 1, To: 2, Eph: true, Pick: 0, Amt: 5, Fee: true, A: 1}) {
+				t.Fatalf("INFRA: cannot build the dependant")
+			}
+			c := bb.V2Txns[len(bb.V2Txns)-1]
+			spendsP := false
+			for _, in := range c.SiacoinInputs {
+				if in.Parent.StateElement.LeafIndex == types.UnassignedLeafIndex {
+					spendsP = true
+				}
+			}
+			if !spendsP {
+				t.Fatalf("INFRA: the dependant does not spend an unconfirmed output")
+			}
+			return [][]types.V2Transaction{{a}, {p, c}}
+		})
 	}
 	for _, n := range []int{11, 13} {
 		n := n
